@@ -653,6 +653,9 @@ func newScenario(r *rand.Rand, ttl time.Duration) *scenario {
 		if r.Intn(3) != 0 {
 			randomVersions(r, b)
 		}
+		if r.Intn(4) == 0 { // a broker that advertises an IPv6 literal: the dial address needs the brackets
+			b.Host = fmt.Sprintf("fd00::%x", id+1)
+		}
 	}
 	c.Controller = int32(ids[r.Intn(nb)])
 	nt := 1 + r.Intn(5)
@@ -928,7 +931,11 @@ func (s *scenario) mutate() {
 			case 0, 1: // same host, another port
 				s.c.MoveBroker(id, b.Host, 9092+(b.Port-9092+1+int32(r.Intn(3)))%5)
 			case 2: // another host
-				s.c.MoveBroker(id, fmt.Sprintf("h%d-%d", id, r.Intn(1000)), b.Port)
+				if r.Intn(3) == 0 {
+					s.c.MoveBroker(id, fmt.Sprintf("fd00:%x::%x", id+1, 1+r.Intn(1000)), b.Port)
+				} else {
+					s.c.MoveBroker(id, fmt.Sprintf("h%d-%d", id, r.Intn(1000)), b.Port)
+				}
 			case 3: // two brokers trade places
 				if len(cand) > 1 {
 					o := s.c.Brokers[cand[r.Intn(len(cand))]]
